@@ -179,11 +179,21 @@ func (c *expCompiler) ProcessTableConstructorExp(t ast.TableConstructor) {
 			tailExp, ok := field.Value.(ast.TailExpNode)
 			if ok {
 				etc := c.compileEtcExp(tailExp, c.GetFreeRegister())
-				c.emitInstr(field.Value, ir.FillTable{
+				fill := ir.FillTable{
 					Dst: c.dst,
 					Idx: currImplicitKey,
 					Etc: etc,
-				})
+				}
+				if currImplicitKey > ir.MaxFillTableIdx {
+					// The index is too big to be part of the instruction, so
+					// load it into a register.
+					c.TakeRegister(etc)
+					fill.IdxInReg = true
+					fill.IdxReg = c.GetFreeRegister()
+					c.emitLoadConst(field.Value, ir.Int(currImplicitKey), fill.IdxReg)
+					c.ReleaseRegister(etc)
+				}
+				c.emitInstr(field.Value, fill)
 				break
 			}
 		}
